@@ -55,6 +55,7 @@ func (it *Interp) visibleEntries(v *StoreView) ([]*StrV, []*StrV) {
 func (it *Interp) storeRangeIterator(v *StoreView, start, end *StrV, reverse bool) Val {
 	keys, vals := it.visibleEntries(v)
 	var ks, vs []*StrV
+	opaqueKeys := 0
 	for i, k := range keys {
 		rel := k
 		if v.prefix != nil {
@@ -72,13 +73,26 @@ func (it *Interp) storeRangeIterator(v *StoreView, start, end *StrV, reverse boo
 				if kp[:n] != pre[:n] {
 					continue // provably outside the iterated prefix
 				}
-				if len(kp) >= len(pre) || complete {
-					if len(kp) < len(pre) {
+				if len(kp) < len(pre) {
+					if complete {
 						continue
 					}
-					it.fail("iteration over an opaque key inside the iterated prefix is not encodable: %s", it.describe(k))
+					it.fail("prefix iteration: cannot decide whether opaque key %s has prefix %q", it.describe(k), pre)
 				}
-				it.fail("prefix iteration: cannot decide whether opaque key %s has prefix %q", it.describe(k), pre)
+				// inside the iterated prefix: usable as long as no ordering decision involves it (checked below)
+				kt := it.toA(k)
+				if kt.op == "app" && kt.name == "concat" {
+					if a, ca := it.knownPrefix(kt.args[0]); ca && a == pre {
+						ks = append(ks, &StrV{T: kt.args[1]})
+						vs = append(vs, vals[i])
+						opaqueKeys++
+						continue
+					}
+				}
+				ks = append(ks, &StrV{T: kt, fullKey: true})
+				vs = append(vs, vals[i])
+				opaqueKeys++
+				continue
 			}
 			if !it.p.branch(it.strHasPrefix(k, v.prefix)) {
 				continue
@@ -102,6 +116,9 @@ func (it *Interp) storeRangeIterator(v *StoreView, start, end *StrV, reverse boo
 		}
 		ks = append(ks, rel)
 		vs = append(vs, vals[i])
+	}
+	if opaqueKeys > 0 && len(ks) > 1 {
+		it.fail("iteration order over %d keys of which %d are opaque is not encodable", len(ks), opaqueKeys)
 	}
 	// insertion sort by key, branching on comparisons
 	for i := 1; i < len(ks); i++ {
@@ -136,6 +153,9 @@ func (it *Interp) storePrefixIterator(v *StoreView, prefix *StrV, reverse bool) 
 	// keys reported by a prefix iterator include the prefix (relative to the store view it was opened on)
 	d := r.V.(*Native).Data.(*iterData)
 	for i := range d.keys {
+		if d.keys[i].fullKey {
+			continue
+		}
 		d.keys[i] = it.strConcat(prefix, d.keys[i])
 	}
 	return r
